@@ -139,7 +139,7 @@ template <class S> struct Ops {
     in.sc[n] = v; in.version = next_version(); m.recent[m.sel].clear(); if (wild) in.wild = true;
     CAP.begin(); S back = masa_get_param<S>(n); CAP.end();
     if (!biteq(back, v)) hviol("C11", "set-get-roundtrip:" + in.sol, "masa_get_param(\"" + n + "\") returned " + sval(back) + " after masa_set_param(" + sval(v) + ")");
-    if (!out.empty()) hviol("C11", "set-valid-printed:" + in.sol, "masa_set_param of a valid name printed: " + out.substr(0, 100));
+    (void)out;   // what masa_set_param prints is not part of the property
     compare_selected(m, "C11", "set-leak", "after masa_set_param(\"" + n + "\")");
     // the very next evaluation repeats the last call made BEFORE the change (same evaluator, same point): a cache keyed on
     // the point alone shows up when a fresh handle with the new parameters disagrees
@@ -157,10 +157,10 @@ template <class S> struct Ops {
     std::string n = bad_name();
     hist("masa_set_param<" + P + ">(\"" + n + "\",1.5) [unknown name] on " + m.sel);
     CAP.begin(); masa_set_param<S>(n, S(1.5)); std::string out = CAP.end();
-    if (out.find("MASA ERROR") == std::string::npos) hviol("C11", "set-unknown-silent", "masa_set_param of unknown name '" + n + "' printed no MASA ERROR");
+    (void)out;   // C11 says what an unknown name does to the store (nothing) and what get returns (-20), not what is printed: the text is not judged
     CAP.begin(); S g = masa_get_param<S>(n); std::string o2 = CAP.end();
     if (!(g == S(-20))) hviol("C11", "get-unknown-not-minus-20", "masa_get_param of unknown name '" + n + "' returned " + sval(g));
-    if (o2.find("MASA ERROR") == std::string::npos) hviol("C11", "get-unknown-silent", "masa_get_param of unknown name printed no MASA ERROR");
+    (void)o2;
     compare_selected(m, "C11", "unknown-name-changed-state", "after set/get of unknown name '" + n + "'");
   }
   void get_param() {
@@ -227,7 +227,7 @@ template <class S> struct Ops {
       std::vector<S> v(3, S(1));
       hist("masa_set_vec<" + P + ">(\"" + n + "\",len 3) [unknown name] on " + m.sel);
       CAP.begin(); masa_set_vec<S>(n, v); std::string out = CAP.end();
-      if (out.find("MASA ERROR") == std::string::npos) hviol("C11", "set_vec-unknown-silent", "masa_set_vec of unknown name printed no MASA ERROR");
+      (void)out;
       std::vector<S> g(2, S(7)); CAP.begin(); int rc = masa_get_vec<S>(n, g); CAP.end();
       if (rc == 0) hviol("C11", "get_vec-unknown-status", "masa_get_vec of unknown name '" + n + "' returned 0");
       compare_selected(m, "C11", "unknown-vector-changed-state", "after set_vec/get_vec of unknown name");
@@ -402,7 +402,8 @@ template <class S> struct Ops {
     std::string us = "no_such_solution";
     {
       std::string base = SOLS[(size_t)R->below((int)SOLS.size())];
-      switch (R->below(6)) {
+      switch (R->below(7)) {
+        case 5: us = base; us.insert((size_t)R->below((int)base.size() + 1), 1, '\0'); us += "x"; break;   // a std::string with an embedded NUL is not the name
         case 0: us = base + "_"; break;
         case 1: us = "x" + base; break;
         case 2: { size_t p = (size_t)R->below((int)base.size()); us = base; us[p] = (char)((unsigned char)us[p] | 0x80); break; }
